@@ -13,6 +13,7 @@ from quara.objects.qoperations import SetQOperations
 from quara.protocol.qtomography.standard.standard_qtomography import StandardQTomography
 from quara.protocol.qtomography.standard.standard_qpt import calc_c_qpt
 from quara.qcircuit.experiment import Experiment
+from quara.utils import matrix_util
 from quara.utils.number_util import to_stream
 
 
@@ -201,6 +202,25 @@ class StandardQmpt(StandardQTomography):
             list(empi_dists) for empi_dists in zip(*empi_dists_sequence_tmp)
         ]
         return empi_dists_sequence
+
+    def _generate_matS(self) -> np.ndarray:
+        # first row of the last HS = (1,0,...,0) - sum of the first rows of the other HSs
+        squared_dim = self._template_qoperation.dim ** 2
+        matS = np.zeros((squared_dim, self.num_variables), dtype=np.float64)
+        for outcome in range(self._num_outcomes - 1):
+            start = outcome * squared_dim ** 2
+            matS[:, start : start + squared_dim] = np.eye(squared_dim)
+        return matS
+
+    def _calc_mse_linear_analytical_mode_qoperation(
+        self, qope: QOperation, data_num_list: List[int]
+    ) -> np.float64:
+        val = self._calc_mse_linear_analytical_mode_var(qope, data_num_list)
+        if qope.on_para_eq_constraint:
+            # adds Tr[S V(v^{L}) S^T], the error of the entries implied by the variables
+            cov = self.calc_covariance_linear_mat_total(qope, data_num_list)
+            val += np.trace(matrix_util.calc_conjugate(self._generate_matS(), cov))
+        return val
 
     def _testers(self) -> List[Union[State, Povm]]:
         return self.experiment.states + self.experiment.povms
